@@ -166,6 +166,10 @@ func VerifC14Faults() {
 // the calls that follow the failure.
 func VerifC14Handle() {
 	store := pNewStore()
+	if verifChoice("store-copies", 2) == 1 {
+		store.ownCopy = true // a store that keeps its own copy (a remote store): the handle's bytes can run ahead of it
+		verifTag("store-data", "own-copy")
+	}
 	var fs hackpadfs.FS
 	var err error
 	if verifChoice("store-kind", 2) == 1 {
@@ -211,8 +215,8 @@ func VerifC14Handle() {
 		return got
 	}
 	for i := 0; i < K; i++ {
-		c := verifChoice(verifName("call", i), 7)
-		verifTag("last-call", []string{"Read", "Stat", "Write", "Seek-end", "Truncate", "ReadDir", "Chmod"}[c])
+		c := verifChoice(verifName("call", i), 8)
+		verifTag("last-call", []string{"Read", "Stat", "Write", "Seek-end", "Truncate", "ReadDir", "Chmod", "WriteAt"}[c])
 		switch c {
 		case 0:
 			buf := make([]byte, 1)
@@ -272,6 +276,17 @@ func VerifC14Handle() {
 			}
 		case 5:
 			_, _ = hackpadfs.ReadDirFile(h, -1)
+		case 7:
+			// a positioned write (the natural retry of a write that failed: same bytes, same place)
+			n, werr := hackpadfs.WriteAtFile(h, []byte{7}, 0)
+			if werr != nil {
+				unknown = true
+			}
+			if target == "b" && werr == nil {
+				verifAssert(n == 1, "WriteAt reports success with a short count")
+				got := fresh("after a successful WriteAt")
+				verifAssert(len(got) > 0 && got[0] == 7, "WriteAt reported success but the store does not hold the byte")
+			}
 		case 6:
 			// a Chmod through the handle that reports success is in the store (also when it repeats one that failed)
 			cerr := hackpadfs.ChmodFile(h, 0600)
